@@ -7,7 +7,7 @@ cleanup() { git -C /repo worktree remove --force $wt; }
 trap cleanup EXIT
 cd $wt
 PYTHONPATH=$wt/src timeout 300 /venv/bin/python $d/demo.py >/tmp/confirm-$$.out 2>&1; rc0=$?
-git apply $d/patch.diff || { echo "PATCH DOES NOT APPLY"; exit 8; }
+git apply $d/patch.diff 2>/dev/null || git apply --3way $d/patch.diff || { echo "PATCH DOES NOT APPLY"; exit 8; }
 tests=$(PYTHONPATH=$wt/src /venv/bin/python -m pytest -q -p no:cacheprovider --no-cov 2>&1 | tail -1)
 PYTHONPATH=$wt/src timeout 300 /venv/bin/python $d/demo.py >/tmp/confirm-$$.out2 2>&1; rc1=$?
 echo "demo_unchanged_rc=$rc0 demo_patched_rc=$rc1 tests_with_patch: $tests"
